@@ -3,7 +3,13 @@
 //
 // Grammar of the three description fields (no blanks inside a field):
 //
-//	tables = entry[,entry...]    entry = name=rows            csv table T, row r: id = T[0]+r, name = "n"+r
+//	tables = entry[,entry...]    entry = name=rows[~DDki]     csv table T, row r: id = T[0]+r, name = "n"+r; options of
+//	                                                          the file/csv source: DD = delimiter byte in hex (`--`:
+//	                                                          option not written, the file uses ","), k = f (option
+//	                                                          `fields: [id, name]`, with i the file starts with a
+//	                                                          title line) | h (no `fields` option, the file starts
+//	                                                          with the line id<d>name), i = i (ignore_first_line:
+//	                                                          true) | n (false); default ~2cfn
 //	                                   | src.list=n           list variable `list` of the `variables` source
 //	                                                          `src` with elements src-list[0]<i>, i < n
 //	                                   | g:key=hexw:hexv      scalar variable of the `variables` source g, WRITTEN as
@@ -35,6 +41,8 @@
 //	                              string: fails once <req> has captured tok in this shot)
 //	scens  = scen[;scen...]     scen = name,weight|-,hexshoot[:hexshoot...][,min_waiting_time ms]
 //	script = - | k:act[,k:act...]   act = s<code> | g | t | n | m | h
+//	                                      | r<code>   the answer has status <code> (3xx) AND a Location header that
+//	                                                  points to /q9999 (a path no scenario has); body and X-Tok as usual
 package a15
 
 import (
@@ -70,8 +78,19 @@ type Scen struct {
 }
 
 type Table struct {
-	Name string
-	Rows int
+	Name   string
+	Rows   int
+	Delim  string // the delimiter option as written; "" = not written
+	Header bool   // no fields option: the first line of the file names the fields
+	Ignore bool   // ignore_first_line
+}
+
+// D is the byte that separates the cells of the file.
+func (t Table) D() string {
+	if t.Delim == "" {
+		return ","
+	}
+	return t.Delim
 }
 
 // VList: a list variable of a `variables` source.
@@ -104,8 +123,21 @@ func ParseTables(s string) []Table {
 		if strings.Contains(kv[0], ".") || strings.HasPrefix(kv[0], "g:") {
 			continue
 		}
-		n, _ := strconv.Atoi(kv[1])
-		out = append(out, Table{Name: kv[0], Rows: n})
+		t := Table{Name: kv[0], Delim: ","}
+		rows := kv[1]
+		if i := strings.IndexByte(rows, '~'); i >= 0 {
+			o := rows[i+1:]
+			rows = rows[:i]
+			if o[:2] == "--" {
+				t.Delim = ""
+			} else {
+				t.Delim = string(vh.UnHex(o[:2]))
+			}
+			t.Header = o[2] == 'h'
+			t.Ignore = o[3] == 'i'
+		}
+		t.Rows, _ = strconv.Atoi(rows)
+		out = append(out, t)
 	}
 	return out
 }
@@ -223,8 +255,14 @@ func ParseSpec(tables, reqs, scens string) Spec {
 // CSV returns the content of the csv file of a table.
 func (t Table) CSV() string {
 	var b strings.Builder
+	d := t.D()
+	if t.Header {
+		b.WriteString("id" + d + "name\n")
+	} else if t.Ignore {
+		b.WriteString("ID" + d + "NAME\n") // a title line the options tell the source to skip
+	}
 	for r := 0; r < t.Rows; r++ {
-		fmt.Fprintf(&b, "%s%d,n%d\n", t.Name[:1], r, r)
+		fmt.Fprintf(&b, "%s%d%sn%d\n", t.Name[:1], r, d, r)
 	}
 	return b.String()
 }
@@ -236,8 +274,14 @@ type m = map[string]interface{}
 func (s Spec) YAML(prefix string) []byte {
 	var sources []interface{}
 	for _, t := range s.Tables {
-		sources = append(sources, m{"name": t.Name, "type": "file/csv", "file": prefix + t.Name + ".csv",
-			"fields": []string{"id", "name"}, "ignore_first_line": false, "delimiter": ","})
+		src := m{"name": t.Name, "type": "file/csv", "file": prefix + t.Name + ".csv", "ignore_first_line": t.Ignore}
+		if !t.Header {
+			src["fields"] = []string{"id", "name"}
+		}
+		if t.Delim != "" {
+			src["delimiter"] = t.Delim
+		}
+		sources = append(sources, src)
 	}
 	gv := m{"a": "va", "b": "vb", "k7": "7", "k2": "2"}
 	for _, v := range s.GVars {
